@@ -335,3 +335,17 @@ func VerifC17_ClientMap() {
 		verifapi.Assert(len(inner.byAge) == len(inner.byAddr), "the two indexes stay consistent")
 	}
 }
+
+// VerifC05_ClientIDKey: kcp-go keys its sessions by RemoteAddr().String(); two different
+// ClientIDs must therefore never render to the same string, or two clients share a session.
+func VerifC05_ClientIDKey() {
+	var a, b ClientID
+	for i := 0; i < 8; i++ {
+		a[i] = verifapi.Uint8("a")
+		b[i] = verifapi.Uint8("b")
+	}
+	verifapi.Assume(a != b)
+	verifapi.Cover("two different ClientIDs")
+	verifapi.Assert(a.String() != b.String(), "different ClientIDs name different sessions (the session key is injective)")
+	verifapi.Assert(a.Network() == "clientid", "network name")
+}
